@@ -98,6 +98,15 @@ def eval_step(model, sc, dom, extra0="invariant", sde=None, bm=None, log=None, w
             exa = ()
         it.call_function(sc.step_fi, [so, ta, ta + ha, ya, exa], {})
     y1, extra1 = it.call_function(sc.step_fi, [so, t0, t1, y0, extra0], {})
+    # a step body that asks for the autograd mode is evaluated in the other mode too: it must compute the same thing
+    import ast as _ast
+    if any(isinstance(n, _ast.Attribute) and n.attr == "is_grad_enabled" for n in _ast.walk(sc.step_fi.node)):
+        it2 = Interp(model, solverkit.StepHooks(g_ndim, grad_mode=False))
+        so2 = solverkit.solver_obj(model, sc.cls, sde, solverkit.make_bm(solverkit.BMLog()), dict(sc.options))
+        y1b, extra1b = it2.call_function(sc.step_fi, [so2, t0, t1, y0, extra0], {})
+        if not (nf.equal(y1, y1b) and nf.equal(tuple(extra1), tuple(extra1b))):
+            raise AnalysisError(f"{sc.label}: the step computes different values with autograd switched off "
+                                f"(`{y1b}` instead of `{y1}`)", where=astq.loc(sc.step_fi))
     return y1, extra1, log, (t0, h, t1, y0)
 
 
